@@ -192,8 +192,8 @@ pub fn observe(w: &CliWorld, t: &Trial, with_tests: bool) -> Obs {
       // an earlier revision of the project: different fixes, fewer test cases
       w.write_rules(&root, true);
       w.write_tests(&root, true);
-      let p1 = cli_run::run_cli(&root, &[s("sg"), s("test"), s("-U")], mix64(t.hash_seed ^ 5), None);
-      let p2 = cli_run::run_cli(&root, &[s("sg"), s("test")], mix64(t.hash_seed ^ 6), None);
+      let p1 = cli_run::run_cli(&root, &[s("sg"), s("test"), s("-U")], mix64(t.hash_seed ^ 5), Some(mk(5)));
+      let p2 = cli_run::run_cli(&root, &[s("sg"), s("test")], mix64(t.hash_seed ^ 6), Some(mk(6)));
       if p1.result.is_ok() && p2.result.is_err() {
         o.test_after = format!("after `test -U` on the earlier test files, `test` says {}", first_line(p2.result.as_ref().err().unwrap()));
         o.test_update = s("ok");
@@ -203,13 +203,29 @@ pub fn observe(w: &CliWorld, t: &Trial, with_tests: bool) -> Obs {
       w.write_rules(&root, false);
       w.write_tests(&root, false);
     }
-    let t1 = cli_run::run_cli(&root, &[s("sg"), s("test"), s("-U")], mix64(t.hash_seed ^ 3), None);
+    let t1 = cli_run::run_cli(&root, &[s("sg"), s("test"), s("-U")], mix64(t.hash_seed ^ 3), Some(mk(3)));
+    for sr in [&t1.sched].into_iter().flatten() {
+      o.steps += sr.steps;
+      events_hash ^= fnv1a(sr.events.join("\n").as_bytes()).rotate_left(13);
+      if let Some(a) = &sr.abort {
+        o.aborted = Some(a.clone());
+        return o;
+      }
+    }
     o.test_update = match &t1.result {
       Ok(()) => s("ok"),
       Err(e) => first_line(e),
     };
     o.snapshots = read_snapshots(&root);
-    let t2 = cli_run::run_cli(&root, &[s("sg"), s("test")], mix64(t.hash_seed ^ 4), None);
+    let t2 = cli_run::run_cli(&root, &[s("sg"), s("test")], mix64(t.hash_seed ^ 4), Some(mk(4)));
+    for sr in [&t2.sched].into_iter().flatten() {
+      o.steps += sr.steps;
+      events_hash ^= fnv1a(sr.events.join("\n").as_bytes()).rotate_left(19);
+      if let Some(a) = &sr.abort {
+        o.aborted = Some(a.clone());
+        return o;
+      }
+    }
     o.test_after = match &t2.result {
       Ok(()) => s("ok"),
       Err(e) => first_line(e),
